@@ -99,17 +99,25 @@ class DictV(V):
     def __init__(self, items=None):
         self.items = list(items or [])      # [(keyV, valueV)] in insertion order
 
+    @staticmethod
+    def _same_key(k, key):
+        if isinstance(k, Const) and isinstance(key, Const) and k.v == key.v:
+            return True
+        if type(k).__name__ == 'AnnotV' and type(key).__name__ == 'AnnotV' and isinstance(k.label, str) and k.label == key.label:
+            return True     # enum members are singletons
+        if type(k).__name__ == 'TupleV' and type(key).__name__ == 'TupleV' and len(k.items) == len(key.items):
+            return all(DictV._same_key(a, b) for a, b in zip(k.items, key.items))
+        return k is key
+
     def get(self, key):
         for k, v in self.items:
-            if isinstance(k, Const) and isinstance(key, Const) and k.v == key.v:
-                return v
-            if k is key:
+            if self._same_key(k, key):
                 return v
         return None
 
     def set(self, key, value):
         for i, (k, v) in enumerate(self.items):
-            if (isinstance(k, Const) and isinstance(key, Const) and k.v == key.v) or k is key:
+            if self._same_key(k, key):
                 self.items[i] = (k, value)
                 return
         self.items.append((key, value))
@@ -252,6 +260,30 @@ class Raised(Exception):
         self.lineno = lineno
 
 
+_PURE_STR_METHODS = {n_ for n_ in dir(str) if not n_.startswith('_')} - {'format', 'format_map', 'join', 'encode', 'maketrans', 'translate',
+                                                                          'replace', 'split', 'rsplit', 'splitlines', 'partition', 'rpartition'}
+
+
+def _matching_handler(handlers, exc):
+    """the first handler whose class catches the raised exception; when either class is not a builtin exception the
+    first handler is taken (over-approximation kept from before)"""
+    import builtins
+    import re as _re
+    m = _re.match(r'(\w+)', exc.what or '')
+    raised = getattr(builtins, m.group(1), None) if m else None
+    for h in handlers:
+        if h.type is None:
+            return h
+        names = [src(e) for e in (h.type.elts if isinstance(h.type, ast.Tuple) else [h.type])]
+        classes = [getattr(builtins, n_, None) for n_ in names]
+        if not (isinstance(raised, type) and issubclass(raised, BaseException)) or \
+                any(not (isinstance(c, type) and issubclass(c, BaseException)) for c in classes):
+            return h
+        if any(issubclass(raised, c) for c in classes):
+            return h
+    return None
+
+
 class Frame:
     interp_globals = None      # set per interpreter (module-level rebinding through ``global``)
 
@@ -383,6 +415,16 @@ class Interp:
         fn = f.fn
         if fn.name in self.prims and f.env is None:
             return self.call_prim(fn.name, args, kwargs, node)
+        if _is_generator(fn.node) and fn.name in getattr(self, 'eager_generators', ()):
+            # a generator whose inputs the consumer does not touch: running it to completion first is equivalent
+            fr = Frame(fn, fn.module, f.env)
+            self.bind(fn, fr, args, kwargs)
+            fr.yields = []
+            try:
+                self.exec_block(fn.node.body, fr)
+            except _Return:
+                pass
+            return ListV(fr.yields)
         if _is_generator(fn.node):
             if hasattr(self, 'p_' + fn.name):
                 return getattr(self, 'p_' + fn.name)(args, [kwargs.get(k) for k in ()] and kwargs or kwargs, node)
@@ -527,10 +569,11 @@ class Interp:
         elif isinstance(st, ast.Try):
             try:
                 self.exec_block(st.body, fr)
-            except Raised:
-                if not st.handlers:
+            except Raised as exc_:
+                h = _matching_handler(st.handlers, exc_)
+                if h is None:
+                    self.exec_block(st.finalbody, fr)
                     raise
-                h = st.handlers[0]
                 if h.name:
                     fr.vars[h.name] = Sym('exc')
                 self.exec_block(h.body, fr)
@@ -591,6 +634,15 @@ class Interp:
 
     def e_Constant(self, n, fr):
         return Const(n.value)
+
+    def e_Yield(self, n, fr):
+        f = fr
+        while f is not None and not hasattr(f, 'yields'):
+            f = f.parent
+        if f is None:
+            raise Undecided('yield outside an eagerly evaluated generator (line %d)' % n.lineno)
+        f.yields.append(self.eval(n.value, fr) if n.value is not None else NONE)
+        return NONE
 
     def e_Name(self, n, fr):
         v = fr.lookup(n.id)
@@ -707,6 +759,8 @@ class Interp:
                 return obj.extra[attr]
             if ('method:' + attr) in self.prims:
                 return BoundV(obj, attr)
+            if isinstance(obj, Const) and isinstance(obj.v, str) and attr in _PURE_STR_METHODS:
+                return BoundV(obj, attr)
             return BoundV(obj, attr) if attr in _METHODS else Sym('%s.%s' % (_prov(obj), attr))
         if isinstance(obj, FuncV):
             return SymStr('%s.%s' % (obj.fn.name if obj.fn else 'lambda', attr), nonempty=True)
@@ -715,6 +769,9 @@ class Interp:
                 return Const(2 ** 63 - 1)
             if ('method:' + attr) in self.prims:
                 return BoundV(obj, attr)
+            hook = getattr(self, 'foreign_attr', {}).get(obj.name)
+            if hook is not None:
+                return hook(self, attr, n)
             if self._import_time and obj.name == 'sys' and attr in ('stdout', 'stderr', 'stdin'):
                 return Prim('sys.%s@import-time' % attr)
             return Prim('%s.%s' % (obj.name, attr))
@@ -858,7 +915,7 @@ class Interp:
             return SymStr('%s+%s' % (_prov(l), _prov(r)), nonempty=ne)
         if op is ast.Mod and isinstance(l, Const) and isinstance(l.v, str):
             return SymStr('%r%%%s' % (l.v, _prov(r)), nonempty=True if l.v else None)
-        sym = {ast.Add: '+', ast.Sub: '-', ast.Mult: '*', ast.Mod: '%', ast.FloorDiv: '//', ast.Div: '/'}.get(op, '?')
+        sym = {ast.Add: '+', ast.Sub: '-', ast.Mult: '*', ast.Mod: '%', ast.FloorDiv: '//', ast.Div: '/', ast.BitAnd: '&', ast.BitOr: '|'}.get(op, '?')
         return Sym('(%s%s%s)' % (_prov(l), sym, _prov(r)), 'int')
 
     def e_Compare(self, n, fr):
@@ -924,6 +981,15 @@ class Interp:
             return l.name == r.name
         if isinstance(l, (Sym, SymStr)) and isinstance(r, (Sym, SymStr)) and l.prov == r.prov:
             return True
+        if isinstance(l, AnnotV) and isinstance(r, AnnotV) and isinstance(l.label, str) and isinstance(r.label, str):
+            return l.label == r.label
+        if isinstance(l, TupleV) and isinstance(r, TupleV):
+            if len(l.items) != len(r.items):
+                return False
+            ks = [self._known_eq(a, b) for a, b in zip(l.items, r.items)]
+            if any(k is False for k in ks):
+                return False
+            return True if all(k is True for k in ks) else None
         if isinstance(l, ObjV) or isinstance(r, ObjV):
             if isinstance(l, ObjV) and isinstance(r, ObjV):
                 return l is r
@@ -1074,7 +1140,10 @@ class Interp:
                 obj.items.extend(self.iterate(args[0], node))
                 return NONE
             if name == 'pop':
-                return obj.items.pop(args[0].v if args else -1)
+                try:
+                    return obj.items.pop(args[0].v if args else -1)
+                except IndexError:
+                    raise Raised('IndexError: pop from empty list', getattr(node, 'lineno', 0))
             if name == 'reverse':
                 obj.items.reverse()
                 return NONE
@@ -1104,6 +1173,15 @@ class Interp:
                 return r if r is not None else (args[1] if len(args) > 1 else NONE)
             if name == 'copy':
                 return DictV(list(obj.items))
+            if name == 'setdefault':
+                r = obj.get(args[0])
+                if r is None:
+                    r = args[1] if len(args) > 1 else NONE
+                    obj.set(args[0], r)
+                return r
+            if name == 'clear':
+                obj.items[:] = []
+                return NONE
             if name == 'update':
                 for kk, vv in (args[0].items if args and isinstance(args[0], DictV) else []):
                     obj.set(kk, vv)
@@ -1137,11 +1215,25 @@ class Interp:
                 return obj
             if name == 'get':
                 return Sym('%s.get(%s)' % (obj.prov, _prov(args[0])))
+        if isinstance(obj, Const) and isinstance(obj.v, str) and name in _PURE_STR_METHODS and not kwargs \
+                and all(isinstance(a, Const) for a in args):
+            try:
+                r = getattr(obj.v, name)(*[a.v for a in args])
+            except Exception as e:      # what CPython would raise
+                raise Raised('%s: %s' % (type(e).__name__, e), getattr(node, 'lineno', 0))
+            if isinstance(r, list):
+                return ListV([Const(x) for x in r])
+            if isinstance(r, tuple):
+                return TupleV([Const(x) for x in r])
+            return Const(r)
         if name == 'format':
             parts = ','.join(_prov(a) for a in args)
             ne = True if (isinstance(obj, Const) and obj.v.replace('{}', '')) else None
             return SymStr('format(%s;%s)' % (_prov(obj), parts), nonempty=ne)
         if name == 'join':
+            if isinstance(obj, Const) and isinstance(obj.v, str) and isinstance(args[0], (ListV, TupleV)) \
+                    and all(isinstance(x, Const) and isinstance(x.v, str) for x in args[0].items):
+                return Const(obj.v.join(x.v for x in args[0].items))
             return SymStr('join(%s)' % _prov(args[0]))
         if name in ('keys', 'items', 'values') and isinstance(obj, ValueV):
             if obj.elems is None:
@@ -1335,6 +1427,18 @@ class Interp:
             return Const(('CommentAnnotation' in names and is_c) or ('Token' in names and not is_c))
         if isinstance(v, ValueV):
             return Const(v.type.base in names or v.type.name in names or 'object' in names)
+        if isinstance(v, ObjV):
+            seen, todo = set(), [v.cls.name]
+            while todo:
+                c = todo.pop()
+                if c in seen:
+                    continue
+                seen.add(c)
+                for m_ in self.repo.modules.values():
+                    ci = m_.classes.get(c)
+                    if ci is not None:
+                        todo.extend(b.split('.')[-1] for b in ci.bases)
+            return Const(bool(seen & set(names)) or 'object' in names)
         if isinstance(v, Const):
             tn = 'NoneType' if v.v is None else type(v.v).__name__
             return Const(tn in names or (tn == 'bool' and 'int' in names))
